@@ -90,22 +90,26 @@ class Ctx:
                                  "where": self._loc(f, node) if f is not None else None,
                                  "verdict": "holds"})
 
-    def bad(self, rid: str, instance: str, f, node, message: str, path=None):
-        """One rule instance enumerated and violated."""
+    def bad(self, rid: str, instance: str, f, node, message: str, path=None, text=None):
+        """One rule instance enumerated and violated.  `text` overrides the
+        statement text used in the finding key (for findings about a whole
+        function, whose first line would otherwise make the key depend on the
+        signature's formatting)."""
         self.rules.setdefault(rid, {"text": "", "instances": 0, "ok": 0})
         self.rules[rid]["instances"] += 1
         self.obligations += 1
         self.touch(f)
         fq = f.fq if isinstance(f, (FuncInfo, ClassInfo)) else f.name
-        text = stmt_key(node) if isinstance(node, ast.AST) else str(node or "")
+        if text is None:
+            text = stmt_key(node) if isinstance(node, ast.AST) else str(node or "")
         self.violations.append(Violation(rid, instance, self._loc(f, node if isinstance(node, ast.AST) else None),
                                          fq, text, message, path))
 
-    def check(self, cond: bool, rid: str, instance: str, f, node, message: str):
+    def check(self, cond: bool, rid: str, instance: str, f, node, message: str, text=None):
         if cond:
             self.ok(rid, instance, f, node)
         else:
-            self.bad(rid, instance, f, node, message)
+            self.bad(rid, instance, f, node, message, text=text)
         return cond
 
     def floor(self, rid: str, n: int):
